@@ -17,8 +17,46 @@ def spec_risk(low, med, n):
     return 0 if n <= low else 1 if n <= med else 2
 
 
-def meth(name, body, decos=()):
-    return ("method", dict(name=name, decos=list(decos), params=[], ret=None, body=list(body)))
+def meth(name, body, decos=(), is_async=False):
+    """is_async: written `async def`.  Class/Syntax.v has no such notion (and needs none: the vertices of the method graph are the
+    instance methods, however they are declared), the flag only changes the source text"""
+    return ("method", dict(name=name, decos=list(decos), params=[], ret=None, body=list(body), **{"async": bool(is_async)}))
+
+
+def n_async(cls):
+    return sum(1 for m in cls["members"] if m[0] == "method" and m[1].get("async"))
+
+
+def settle_async(cls):
+    """keep the text valid Python: an `async def` whose body Python's compiler rejects only because of the `async` (a `return value`
+    next to a `yield` = async generator returning a value) goes back to a plain def.  Returns the number of such methods."""
+    n = 0
+    for m in cls["members"]:
+        if m[0] != "method" or not m[1].get("async"):
+            continue
+        def text():
+            return "\n".join(cg.class_src(dict(name="K", bases=[], members=[m]))) + "\n"
+        try:
+            compile(text(), "<c14>", "exec")
+        except SyntaxError:
+            m[1]["async"] = False
+            try:
+                compile(text(), "<c14>", "exec")
+                n += 1
+            except SyntaxError:
+                m[1]["async"] = True          # not the async's fault
+    return n
+
+
+def with_async(members, mask):
+    """the same members, method i written `async def` when bit i of mask is set"""
+    out, i = [], 0
+    for m in members:
+        if m[0] == "method":
+            m = ("method", dict(m[1], **{"async": bool(mask >> i & 1)}))
+            i += 1
+        out.append(m)
+    return out
 
 
 def mk_case(cls, kind, tags, low=None, med=None):
@@ -53,11 +91,27 @@ def position_matrix():
             if k == "d" and pname not in ("attr-attr", "call", "attr-other", "nested-attr", "nested-call"):
                 continue
             out.append(mk_case(dict(name="K", bases=[], members=members), "position", {"position": pos, "pattern": pname}))
+            # the same class with some / all of its methods written `async def` (which ones rotates with the position; never none)
+            if pname == ("attr-attr", "call", "nested-call")[BODY_POS.index(pos) % 3] or (k in ("t", "callonly") and pname in ("attr-attr", "call")):
+                nm_ = sum(1 for m in members if m[0] == "method")
+                mask = 1 + (BODY_POS.index(pos) * 3 + len(pname)) % (2 ** nm_ - 1)
+                cls = dict(name="K", bases=[], members=with_async(members, mask))
+                settle_async(cls)
+                out.append(mk_case(cls, "position-async", {"position": pos, "pattern": pname, "async_mask": mask}))
     return out
 
 
 def rand_class(rng, nmax=12, dup=False, mixed=False):
+    cls = rand_class0(rng, nmax, dup, mixed)
+    settle_async(cls)
+    return cls
+
+
+def rand_class0(rng, nmax, dup, mixed):
     n = rng.choice([0, 1, 1, 2, 3, 4, 5, 6, 8, 10, nmax])
+    # method kind: every definition (instance, static, class; decorated or not; a redefinition too) is `def` or `async def`;
+    # per class: no coroutine at all, a few, about half, all but a few, only coroutines
+    p_async = rng.choice([0.0, 0.0, 0.15, 0.5, 0.5, 0.85, 1.0, 1.0])
     names = ["m%d" % i for i in range(n)]
     attrs = ["f%d" % i for i in range(rng.randint(1, max(1, n)))]
     members = []
@@ -103,7 +157,7 @@ def rand_class(rng, nmax=12, dup=False, mixed=False):
                 if rng.random() < 0.3:
                     inner = (("call", "other", "wrap"), [(rng.choice(cg.SLOTS), inner)])
                 body[i] = (host, rng.choice(EXPR_BODY_POS), [(rng.choice(cg.SLOTS), inner)])
-        members.append(meth(nm_, body, decos))
+        members.append(meth(nm_, body, decos, is_async=rng.random() < p_async))
     if dup and n >= 2:
         # redefine a method under the same name (same kind unless mixed)
         for _ in range(rng.randint(1, 2)):
@@ -114,7 +168,8 @@ def rand_class(rng, nmax=12, dup=False, mixed=False):
                 decos = [] if is_static else [rng.choice(["staticmethod", "classmethod"])]
             obj = "self" if not (set(decos) & {"staticmethod", "classmethod"}) else "cls"
             body = [(("attr", obj, rng.choice(attrs)), rng.choice(ATTR_POS)) for _ in range(rng.randint(0, 2))]
-            members.insert(rng.randint(0, len(members)), meth(src["name"], body, decos))
+            # the redefinition keeps or changes the def / async def kind
+            members.insert(rng.randint(0, len(members)), meth(src["name"], body, decos, is_async=rng.random() < max(p_async, 0.3) if rng.random() < 0.5 else src["async"]))
     if rng.random() < 0.3:
         members.insert(rng.randint(0, len(members)), ("attr", "field", ("ref", ("", "int"))))
     if rng.random() < 0.3:
@@ -129,6 +184,17 @@ def threshold_cases():
         members = [meth("m%d" % i, [(("attr", "self", "f%d" % i), "PBody")]) for i in range(k)]
         for lo, me in pairs:
             out.append(mk_case(dict(name="K", bases=[], members=members), "threshold", {"position": "PBody", "pattern": "disjoint", "k": k}, low=lo, med=me))
+        # the same lattice for classes of coroutine methods only, and with exactly one plain def among them (first, middle, last by turns)
+        for j, (lo, me) in enumerate(pairs):
+            if (j + k) % 3:
+                continue                              # three of the nine pairs per k, another three for the next k
+            if (j + k) % 2:
+                out.append(mk_case(dict(name="K", bases=[], members=with_async(members, 2 ** k - 1)), "threshold-async",
+                                   {"position": "PBody", "pattern": "disjoint-all-async", "k": k}, low=lo, med=me))
+                continue
+            one = (0, k // 2, k - 1)[j % 3]
+            out.append(mk_case(dict(name="K", bases=[], members=with_async(members, (2 ** k - 1) & ~(1 << one))), "threshold-async",
+                               {"position": "PBody", "pattern": "disjoint-one-plain-def", "k": k, "plain": one}, low=lo, med=me))
     return out
 
 
@@ -136,7 +202,12 @@ def stress_cases(rng, n):
     """union-find stress family (classgen.unionfind_stress_terms): many methods, every attribute shared by two or three of them,
     self-calls mixed in; each class is analysed several times because the unions happen in Go map iteration order"""
     out = []
-    for t in cg.unionfind_stress_terms(rng, n):
+    for i, t in enumerate(cg.unionfind_stress_terms(rng, n)):
+        # method kind: a third of the classes as generated (plain defs), a third with a random half of the methods `async def`, a third all
+        nm_ = sum(1 for m in t["cls"]["members"] if m[0] == "method")
+        mask = (0, rng.getrandbits(nm_ + 1), 2 ** nm_ - 1)[(i + i // len(cg.UF_FAMILIES)) % 3]
+        t["cls"]["members"] = with_async(t["cls"]["members"], mask)
+        settle_async(t["cls"])
         c = mk_case(t["cls"], "uf-stress", {"position": "mixed", "pattern": "uf-stress", "family": t["family"]})
         c["expect"] = (t["lcom4"], t["groups"])
         out.append(c)
@@ -335,6 +406,229 @@ def check_extra_positions(ck):
     return len(cases), n_known, n_viol
 
 
+# ------------------------------------------------------------------------------------------
+# method KINDS: how a member function of the class is declared.  Instance methods (vertices of the method graph) are
+# `def` and `async def`, bare or under any decorator(s) other than staticmethod / classmethod; the excluded kinds are
+# @staticmethod / @classmethod, alone or stacked with other decorators, in `def` and `async def` form.
+# Written as Python text, decided against the method graph read off Python's own syntax tree (py_method_graph) -
+# LCOM4, MethodGroups, TotalMethods, ExcludedMethods and the risk level of the threshold pair in force.
+# (name, decorator lines, receiver or None, instance method?)
+# ------------------------------------------------------------------------------------------
+_DECOS = [
+    ("bare", [], "self", True),
+    ("wraps-call", ["functools.wraps(fn)"], "self", True),
+    ("name-deco", ["cache"], "self", True),
+    ("property", ["property"], "self", True),
+    ("abstractmethod", ["abc.abstractmethod"], "self", True),
+    ("stacked", ["final", "abstractmethod", "lru_cache(maxsize=8)"], "self", True),
+    ("staticmethod", ["staticmethod"], None, False),
+    ("classmethod", ["classmethod"], "cls", False),
+    ("stacked-staticmethod", ["final", "staticmethod"], None, False),
+    ("stacked-classmethod", ["classmethod", "cache"], "cls", False),
+]
+METHOD_KINDS = [(("async-" if a else "") + n, a, d, r, inst) for n, d, r, inst in _DECOS for a in (False, True)]
+KIND = {k[0]: k for k in METHOD_KINDS}
+PLAIN_KINDS = ["bare", "async-bare"]
+KIND_THRESHOLDS = [(None, None), (1, 2), (0, 0), (1, 1), (2, 2), (1, 3), (2, 3), (3, 1)]
+
+# bodies only an `async def` can have: (name, kinds as in EXTRA_POSITIONS, lines)
+ASYNC_FORMS = [
+    ("AAwaitStmt", "e", ["await $E"]),
+    ("AAwaitAssigned", "e", ["v = await $E"]),
+    ("AAwaitReturned", "e", ["return await $E"]),
+    ("AAwaitGatherArg", "e", ["await asyncio.gather(other.q(), $E)"]),
+    ("AAwaitInCondition", "e", ["if await $E:", "    pass"]),
+    ("AAsyncForIter", "e", ["async for i in $E:", "    pass"]),
+    ("AAsyncForTarget", "t", ["async for $E in y:", "    pass"]),
+    ("AAsyncForBody", "e", ["async for i in y:", "    v = $E"]),
+    ("AAsyncForElse", "e", ["async for i in y:", "    pass", "else:", "    v = $E"]),
+    ("AAsyncWithItem", "e", ["async with $E:", "    pass"]),
+    ("AAsyncWithSecondItem", "e", ["async with w, $E as h:", "    pass"]),
+    ("AAsyncWithAsTarget", "t", ["async with w as $E:", "    pass"]),
+    ("AAsyncWithBody", "e", ["async with w:", "    await $E"]),
+    ("AAsyncCompIter", "e", ["v = [i async for i in $E]"]),
+    ("AAsyncCompIf", "e", ["v = [i async for i in y if $E]"]),
+    ("AAwaitInComp", "e", ["v = [await $E for i in y]"]),
+    ("AAsyncGenYield", "e", ["yield $E"]),
+    ("AAsyncGenYieldAssigned", "e", ["v = yield $E"]),
+    ("AAsyncGenYieldInLoop", "e", ["async for i in y:", "    yield $E"]),
+    ("AAsyncGenAwaitThenYield", "e", ["v = await other.q()", "yield v", "yield $E"]),
+    ("ANestedAsyncDefAwait", "e", ["async def g():", "    return await $E", "return await g()"]),
+]
+
+
+def kind_method(name, kind, body):
+    """source lines of one member function of kind `kind`; `$R` in the body is its receiver (self / cls / the class name)"""
+    _, is_async, decos, rcv, _ = KIND[kind]
+    lines = ["@" + d for d in decos] + ["%sdef %s(%s):" % ("async " if is_async else "", name, rcv or "")]
+    return lines + ["    " + l.replace("$R", rcv or "K") for l in (body or ["pass"])]
+
+
+def call_line(caller_kind, callee, callee_kind):
+    """`$R.callee()` as the caller would write it: awaited when both are coroutines, otherwise handed on"""
+    if KIND[caller_kind][1] and KIND[callee_kind][1]:
+        return "v = await $R.%s()" % callee
+    if KIND[callee_kind][1]:
+        return "v = asyncio.ensure_future($R.%s())" % callee
+    return "v = $R.%s()" % callee
+
+
+def kind_class(methods):
+    """methods: [(name, kind, body lines)]"""
+    lines = ["class K:"]
+    for name, kind, body in methods:
+        lines += ["    " + l for l in kind_method(name, kind, body)] + [""]
+    return "import abc, asyncio, functools\n\n\n" + "\n".join(lines)
+
+
+def method_kind_cases():
+    out = []
+
+    def add(shape, methods, **tags):
+        kinds = [k for _, k, _ in methods]
+        out.append({"shape": shape, "src": kind_class(methods), "kinds": kinds,
+                    "tags": dict(tags, **{"class": "method-kind", "shape": shape, "kinds": "/".join(kinds)})})
+    all_kinds = [k[0] for k in METHOD_KINDS]
+    # (1) a constructor that touches nothing + two methods on attributes of their own: every ordered pair of kinds
+    for k1 in all_kinds:
+        for k2 in all_kinds:
+            add("init+two-disjoint", [("__init__", "bare", []), ("start", k1, ["return $R.x"]), ("stop", k2, ["$R.y = 1"])])
+    # (2) the single bridge between two components is of kind kb (a shared attribute on each side); ends of every plain kind
+    for kb in all_kinds:
+        for ka in PLAIN_KINDS:
+            for kc in PLAIN_KINDS:
+                add("bridge-by-attributes", [("a", ka, ["return self.x"]), ("b", kb, ["$R.x = $R.y"]), ("c", kc, ["return self.y"]), ("d", ka, ["return self.z"])])
+                # (3) the bridge is called by one end and calls the other
+                add("bridge-by-calls", [("a", ka, [call_line(ka, "b", kb)]), ("b", kb, [call_line(kb, "c", kc)]), ("c", kc, []), ("d", kc, ["return self.z"])])
+                # (4) attribute on one side, call on the other, declared in the opposite order
+                add("bridge-attribute-and-call", [("d", kc, []), ("c", kc, ["return self.y"]), ("b", kb, ["$R.y = 1", call_line(kb, "a", ka)]), ("a", ka, [])])
+    # (5) classes made of coroutine methods only: 1..5 of them, disjoint / a chain of calls / a chain of attributes / one hub
+    for n in range(1, 6):
+        ms = ["m%d" % i for i in range(n)]
+        add("only-async-disjoint", [(m, "async-bare", ["return self.f%d" % i]) for i, m in enumerate(ms)], n=n)
+        add("only-async-call-chain", [(m, "async-bare", ["return await self.%s()" % ms[i + 1]] if i + 1 < n else []) for i, m in enumerate(ms)], n=n)
+        add("only-async-attr-chain", [(m, "async-bare", ["self.f%d = self.f%d" % (i, i + 1)]) for i, m in enumerate(ms)], n=n)
+        add("only-async-hub+isolated", [(m, "async-bare", (["await self.%s()" % x for x in ms[1:-1]] if i == 0 else [])) for i, m in enumerate(ms)], n=n)
+        add("only-async-decorated-mix", [(m, all_kinds[1::2][i % 6], ["return self.f%d" % (i // 2)]) for i, m in enumerate(ms)], n=n)
+        add("only-async-with-excluded", [(m, ("async-bare", "async-staticmethod", "async-classmethod")[i % 3], ["return $R.f%d" % (i // 3)]) for i, m in enumerate(ms)], n=n)
+    # (6) bodies only a coroutine can have, holding the access that joins `a` to `b` (partner of either plain kind)
+    for fname, kinds, tpl in ASYNC_FORMS:
+        pats = [("attr-attr", "self.x", ["return self.x"], ["return self.z"])]
+        if kinds == "e":
+            pats.append(("call", "self.b()", ["return self.y"], []))
+            pats.append(("nested-attr", "Dep(other.fn(self.x))", ["return self.x"], ["return self.z"]))
+        for pat, expr, b_body, c_body in pats:
+            for kb in PLAIN_KINDS:
+                add("async-body", [("a", "async-bare", [l.replace("$E", expr) for l in tpl]), ("b", kb, b_body), ("c", "async-bare" if kb == "bare" else "bare", c_body)],
+                    form=fname, pattern=pat)
+    for i, c in enumerate(out):
+        c["low"], c["med"] = lo, me = KIND_THRESHOLDS[i % len(KIND_THRESHOLDS)]
+        # the CLI rejects low <= 0 and medium <= low: those pairs go to the analyser only, the CLI run takes low 1, medium 2 instead
+        c["cli"] = (lo, me) if lo is None or 0 < lo < me else (1, 2)
+    return out
+
+
+def py_method_counts(src, cls_name="K"):
+    """(definitions of member functions in the class body, of which @staticmethod / @classmethod), from Python's syntax tree"""
+    import ast
+    cls = [n for n in ast.walk(ast.parse(src)) if isinstance(n, ast.ClassDef) and n.name == cls_name][0]
+    fns = [fn for fn in cls.body if isinstance(fn, (ast.FunctionDef, ast.AsyncFunctionDef))]
+    excl = [fn for fn in fns if {d.id for d in fn.decorator_list if isinstance(d, ast.Name)} & {"staticmethod", "classmethod"}]
+    return len(fns), len(excl)
+
+
+def check_method_kinds(ck, dlow, dmed):
+    """driver (the thresholds of the case) and CLI (one .pyscn.toml per threshold pair) on the method-kind classes"""
+    cases = method_kind_cases()
+    for c in cases:
+        compile(c["src"], "<c14 method kinds>", "exec")                  # the generator writes valid Python (raises otherwise)
+        c["want"] = py_method_graph(c["src"]) + py_method_counts(c["src"])
+    reqs = []
+    for c in cases:
+        r = {"op": "lcom", "src": c["src"]}
+        if c["low"] is not None:
+            r["low"], r["medium"] = c["low"], c["med"]
+        reqs.append(r)
+    impl = lib.driver(reqs)
+    n_viol = n_known = n_cli = 0
+    hist = {}
+
+    def report(c, what, replay):
+        nonlocal n_viol, n_known
+        e = ck.match_known(c["tags"])
+        if e:
+            n_known += 1
+            ck.known_finding(e)
+            return
+        n_viol += 1
+        if n_viol <= 6:
+            ck.violation(what + " [%s]" % c["tags"], replay)
+
+    def verdict(c, got, risk, via, lo, me):
+        w4, wgroups, wtotal, wexcl = c["want"]
+        lo = dlow if lo is None else lo
+        me = dmed if me is None else me
+        if got[0] != w4:
+            return "%s: LCOM4 %d, the method graph (instance methods: def and async def alike, static/class methods excluded) has %d connected components %s" % (via, got[0], w4, wgroups)
+        if got[1] != wgroups:
+            return "%s: method groups %s are not the components %s" % (via, got[1], wgroups)
+        if got[2:] != (wtotal, wexcl):
+            return "%s: TotalMethods/ExcludedMethods %d/%d, the class defines %d methods of which %d static/class" % (via, got[2], got[3], wtotal, wexcl)
+        if RISK.get(risk) != spec_risk(lo, me, w4):
+            return "%s: risk level %s for %d components does not follow the thresholds low=%d medium=%d" % (via, risk, w4, lo, me)
+        return None
+
+    failed = set()
+    for i, (c, r) in enumerate(zip(cases, impl)):
+        hist[c["shape"]] = hist.get(c["shape"], 0) + 1
+        replay = {"kind": "method-kind", "tags": c["tags"], "source": c["src"], "options": {"low": c["low"], "medium": c["med"]},
+                  "spec": dict(zip(("lcom4", "groups", "total", "excluded"), c["want"]))}
+        ks = [x for x in r.get("classes", []) if x["name"] == "K"] if "error" not in r else []
+        if len(ks) != 1:
+            failed.add(i)
+            report(c, "LCOM analysis failed or class K missing: %s" % str(r)[:300], replay)
+            continue
+        ic = ks[0]
+        bad = verdict(c, (ic["lcom4"], sorted(sorted(g) for g in ic["groups"]), ic["total"], ic["excluded"]), ic["risk"], "analyser", c["low"], c["med"])
+        if bad:
+            failed.add(i)
+            report(c, bad, dict(replay, impl=ic))
+    # the same classes through `pyscn analyze --json --select lcom`: one directory (and .pyscn.toml) per threshold pair, a file per shape
+    for lo, me in sorted({c["cli"] for c in cases}, key=str):
+        d = lib.fresh_dir("c14_kinds_%s_%s" % (lo, me))
+        with open(os.path.join(d, ".pyscn.toml"), "w") as f:
+            f.write("" if lo is None else "[lcom]\nlow_threshold = %d\nmedium_threshold = %d\n" % (lo, me))
+        files = {}
+        for i, c in enumerate(cases):
+            if c["cli"] == (lo, me):
+                files.setdefault(c["shape"], []).append(i)
+        for shape, idxs in files.items():
+            with open(os.path.join(d, "kinds_%s.py" % shape.replace("-", "_").replace("+", "_")), "w") as f:
+                f.write("\n\n".join(cases[i]["src"].replace("class K:", "class K%d:" % i).replace("K.", "K%d." % i) for i in idxs) + "\n")
+        rc, data, err = lib.analyze_json(d, ["--select", "lcom"])
+        if data is None or "lcom" not in data:
+            ck.broken_ties.append("method kinds: pyscn analyze produced no lcom report (rc=%s): %s" % (rc, err[-300:]))
+            continue
+        got = {cl["Name"]: cl for cl in data["lcom"].get("Classes") or []}
+        for idxs in files.values():
+            for i in idxs:
+                c = cases[i]
+                n_cli += 1
+                if i in failed:
+                    continue
+                replay = {"kind": "method-kind-cli", "tags": c["tags"], "source": c["src"], "toml_lcom": {"low_threshold": lo, "medium_threshold": me},
+                          "spec": dict(zip(("lcom4", "groups", "total", "excluded"), c["want"]))}
+                cl = got.get("K%d" % i)
+                if cl is None:
+                    report(c, "pyscn analyze: the class is missing from lcom.Classes[]", replay)
+                    continue
+                m = cl["Metrics"]
+                bad = verdict(c, (m["LCOM4"], sorted(sorted(g) for g in (m["MethodGroups"] or [])), m["TotalMethods"], m["ExcludedMethods"]), cl["RiskLevel"], "pyscn analyze", lo, me)
+                if bad:
+                    report(c, bad, dict(replay, cli=cl))
+    return len(cases), n_cli, n_known, n_viol, hist
+
+
 def coq_opts(c, dlow, dmed):
     return "(LcomOptions (%d)%%Z (%d)%%Z)" % (dlow if c["low"] is None else c["low"], dmed if c["med"] is None else c["med"])
 
@@ -461,11 +755,14 @@ def main(tier):
 
     n_viol = n_tie = n_known = n_stress_runs = 0
     stress_specs = [None] * (len(cases) - stress_at)
-    dist, sizes, comps = {}, {}, {}
+    dist, sizes, comps, asyncs = {}, {}, {}, {}
     distinct = set()
     results = []
     for idx, (c, r) in enumerate(zip(cases, impl)):
         dist[c["kind"]] = dist.get(c["kind"], 0) + 1
+        na, nd = n_async(c["cls"]), sum(1 for m in c["cls"]["members"] if m[0] == "method")
+        ak = "no async def" if na == 0 else "only async def" if na == nd else "def and async def"
+        asyncs[ak] = asyncs.get(ak, 0) + 1
         src = reqs[idx]["src"]
         distinct.add(src)
         if "error" in r or len(r["classes"]) != 1:
@@ -547,6 +844,15 @@ def main(tier):
     except Exception as e:
         ck.broken_ties.append("extra positions (outside Class/Syntax.v) failed: %s" % str(e)[-600:])
 
+    n_kinds = n_kinds_cli = 0
+    kinds_hist = {}
+    try:
+        n_kinds, n_kinds_cli, k3, b3, kinds_hist = check_method_kinds(ck, dlow, dmed)
+        n_known += k3
+        n_viol += b3
+    except Exception as e:
+        ck.broken_ties.append("method kinds (def / async def / decorated / static / class) failed: %s" % str(e)[-600:])
+
     n_e2e = 0
     try:
         n_e2e = e2e(ck, cases, impl)
@@ -560,18 +866,24 @@ def main(tier):
 
     ck.samples = [{"source": reqs[i]["src"], "impl": results[i], "tags": cases[i]["tags"]} for i in (2, stress_at - 2, len(cases) - 2) if results[i]]
     ck.cov.update({
-        "evaluations": len(cases) + n_table + n_e2e + n_extra + max(0, n_stress_runs - (len(cases) - stress_at)),
+        "evaluations": len(cases) + n_table + n_e2e + n_extra + n_kinds + n_kinds_cli + max(0, n_stress_runs - (len(cases) - stress_at)),
         "distinct_nontrivial": len(distinct),
         "rule": "position x access-pattern matrix (self.x shared, self.m() call, shared call name, other.x, cls.x, attribute named like a method, "
                 "self.x / self.m() hidden in the argument list of another call; positions include f-strings with a replacement field nested in the format specification - width, precision, first of two, spec of a later interpolation -, !r, =, :spec, a later interpolation, an f-string inside an f-string), "
                 "positions outside Class/Syntax.v as Python templates (%d: f-string as part of an implicit string concatenation, yield from, except T as e, each `if` of a comprehension with several, later for clauses, typed / keyword-only default and annotations of a nested def, lambda default, starred targets, match patterns and guard, bases / keywords / body of a class defined in the method, slice bounds, await / async for / async with ...) x (self.x shared, self.m() call, self.x nested in a call), decided against the method graph read off Python's own syntax tree (ast), " % len(EXTRA_POSITIONS) +
-                
+                "method kinds (%d classes: every member function is `def` or `async def`, bare or decorated - call / name / attribute decorator, @property, @abstractmethod, stacked - or of an excluded kind - @staticmethod, @classmethod, alone or stacked, in async form too: "
+                "%d kinds; a constructor + two methods on attributes of their own for EVERY ordered pair of kinds; a single bridge of every kind between two components, joined by attributes / by self-calls (await self.m() between coroutines) / by one of each, ends def or async def; "
+                "classes of 1..5 coroutine methods only - disjoint, call chain, attribute chain, hub, decorated, with excluded ones; %d bodies only a coroutine can have - await, async for iter / target / body / else, async with item / target / body, "
+                "async comprehension, async generator yields - holding the joining self.x / self.m()), decided against Python's syntax tree for LCOM4, MethodGroups, TotalMethods, ExcludedMethods and the risk level under %d threshold pairs, through the analyser AND through `pyscn analyze` with a .pyscn.toml per pair, "
+                % (n_kinds, len(METHOD_KINDS), len(ASYNC_FORMS), len(KIND_THRESHOLDS)) +
+                "every position of the matrix once more with some / all methods `async def` (pattern and mask rotating with the position), a third of the threshold lattice once more with all-coroutine classes and classes with exactly one plain def (alternating; pairs rotating with the number of components), "
                 "threshold lattice (1..8 components x 9 threshold pairs), random classes (0..12 methods, shared attributes, self-calls, static/class methods, "
-                "duplicate method names, every position), union-find stress classes (6..14 methods, every attribute shared by two or three methods, no method touching everything: "
+                "duplicate method names, every position; every definition `def` or `async def`: per class none, 15 %%, half, 85 %%, all), union-find stress classes (6..14 methods, every attribute shared by two or three methods, no method touching everything; a third of the classes with a random half of the methods `async def`, a third with all: "
                 "random/deep trees, forests, trees with extra edges, chains joined in the middle, pairs joined through a third attribute, stars linked leaf to leaf, caterpillars; "
                 "self-calls mixed with attribute edges; EACH class analysed %d times by the driver in two processes and twice by the CLI, the spec value required every time), "
                 "parser position table, CLI runs with default and custom [lcom] thresholds; distinct = distinct source texts" % n_runs,
         "input_distribution": dict(dist, position_table_probes=n_table, extra_positions_outside_syntax=n_extra, e2e_classes=n_e2e, uf_stress_driver_runs=n_stress_runs,
+                                   method_kind_classes=n_kinds, method_kind_classes_cli=n_kinds_cli, method_kind_shapes=kinds_hist, async_def_histogram=dict(sorted(asyncs.items())),
                                    instance_method_count_histogram=dict(sorted(sizes.items())), component_count_histogram=dict(sorted(comps.items()))),
         "known_finding_cases": n_known,
         "model_mismatches": n_tie,
